@@ -133,6 +133,16 @@ Record session := {
   s_user : str; s_email : str; s_groups : list str; s_token : str
 }.
 
+(* How [pass_access_token] of the resolved configuration comes about (options.go SetUpstreamConfigs,
+   proxy_config.go parseOptionsConfig:372-420): the deployment-wide defaults and the upstream's own
+   `options` are merged into dst, but dst.PassAccessToken (like dst.SkipAuthPreflight) is never
+   copied onto the resolved UpstreamConfig: whatever the documents say, the resolved flag is off.
+   [upstream_option]: what the operator wrote for this upstream (None = option not mentioned).
+   The property's reading: an upstream that writes `false` must never receive the token, whatever
+   the deployment default is; the driver boots one world through the real configuration path with
+   every boolean deployment default on and every boolean upstream option explicitly false. *)
+Definition resolve_pass_access_token (deployment_default : bool) (upstream_option : option bool) : bool := false.
+
 (* which branch of Proxy (oauthproxy.go:546-551) the request took and, when Authenticate
    returned nil, the session it loaded. Whether a request is whitelisted (skip_auth_regex match,
    or OPTIONS under skip_auth_preflight) is regexp behaviour: an oracle carried by the case. *)
